@@ -22,7 +22,7 @@ from ..astutil import dotted, norm, walk_local
 from ..core import Ctx, PropSpec, Unsupported
 from ..extract import where
 from ..harness import Harness, cursor
-from ..interp import Raised
+from ..interp import pub, Raised
 
 ENC = "xtce/encodings.py"
 
@@ -68,7 +68,7 @@ def int_table(ctx: Ctx, h: Harness, thorough: bool):
                             n += 1
                             data = pack_bits("1" * off + fbits + "101")
                             pkt = h.packet(data, {})
-                            pkt.attrs["raw_data"].attrs["pos"] = off
+                            pub(pkt, "raw_data").attrs["pos"] = off
                             kind, got = h.outcome("e.parse_value(pkt)", ENC, e=e, pkt=pkt)
                             fb = fbits
                             if order.startswith("least"):
@@ -77,7 +77,7 @@ def int_table(ctx: Ctx, h: Harness, thorough: bool):
                             val = int(fb, 2)
                             if enc != "unsigned" and fb[0] == "1":
                                 val -= 1 << w
-                            pos = cursor(h, pkt.attrs["raw_data"])
+                            pos = cursor(h, pub(pkt, "raw_data"))
                             ok = kind == "ok" and got == val and getattr(got, "cls", "") == "IntParameter" and isinstance(got, int) \
                                 and got.attrs.get("raw_value") == val and pos == off + w
                             if not ok:
@@ -158,9 +158,9 @@ def float_table(ctx: Ctx, h: Harness, thorough: bool):
                             n += 1
                             data = pack_bits("0" * off + bits_of(field) + "11")
                             pkt = h.packet(data, {})
-                            pkt.attrs["raw_data"].attrs["pos"] = off
+                            pub(pkt, "raw_data").attrs["pos"] = off
                             kind, got = h.outcome("e.parse_value(pkt)", ENC, e=e, pkt=pkt)
-                            pos = cursor(h, pkt.attrs["raw_data"])
+                            pos = cursor(h, pub(pkt, "raw_data"))
                             same = kind == "ok" and isinstance(got, float) and ((got != got and want != want) or
                                                                                 (got == want and math.copysign(1, got) == math.copysign(1, want)))
                             ok = same and getattr(got, "cls", "") == "FloatParameter" and pos == off + size
@@ -198,9 +198,9 @@ def float_table(ctx: Ctx, h: Harness, thorough: bool):
                     n += 1
                     data = pack_bits("1" * off + bits_of(fieldbytes) + "0")
                     pkt = h.packet(data, {})
-                    pkt.attrs["raw_data"].attrs["pos"] = off
+                    pub(pkt, "raw_data").attrs["pos"] = off
                     kind, got = h.outcome("e.parse_value(pkt)", ENC, e=e, pkt=pkt)
-                    pos = cursor(h, pkt.attrs["raw_data"])
+                    pos = cursor(h, pub(pkt, "raw_data"))
                     ok = kind == "ok" and isinstance(got, float) and got == want and getattr(got, "cls", "") == "FloatParameter" and pos == off + 32
                     if not ok:
                         bad = (f"MIL-1750A word {int(v, 2):08x} ({order}) at bit offset {off}: "
@@ -378,7 +378,8 @@ SPEC = PropSpec(
                  "covering sign/exponent extremes in both byte orders; the sizes the constructor admits; and the "
                  "structural struct-code table (8*calcsize(code) = size). IEEE bit-exactness itself is struct's."
                  ' Also the spelling twosCompliment and integers whose declared context calibrators do not apply (they stay integers).'
-                 ' R4.pure: nothing reachable from the numeric decoders writes to an encoding, a class or a module-level object (effect analysis); R4.fresh: every parsed packet owns a fresh cursor; the tolerated spellings IEEE-754 / MIL-1750A are constructed in sequence with the others.'),
+                 ' R4.pure: nothing reachable from the numeric decoders writes to an encoding, a class or a module-level object (effect analysis); R4.fresh: every parsed packet owns a fresh cursor; the tolerated spellings IEEE-754 / MIL-1750A are constructed in sequence with the others.'
+                 ' R4.e3: the hand-written document of R1.e3 (the decoded integer follows the encoding, whatever the `signed` attribute of the parameter type says).'),
     rule_doc="R4.int per (encoding, byte order) over widths x offsets x patterns; R4.float per (format, byte order, spelling); R4.tab per table row",
     assumptions=["struct.unpack implements IEEE-754 binary16/32/64", "MIL-STD-1750A: value = mantissa/2**23 * 2**exponent, both two's complement",
                  "cursor reads are exact (C03)"],
